@@ -7,7 +7,7 @@ cd $W || exit 2
 git checkout -q -- . ; git apply $O/patch.diff || { echo "patch does not apply"; exit 2; }
 cmake --build _build -j12 2>&1 | tail -1
 echo "--- demo WITH change:"; (cd $O && timeout 900 bash ./build_and_run.sh $W > $O/verify_with.log 2>&1; echo "rc=$?" | tee -a $O/verify_with.log); tail -3 $O/verify_with.log
-echo "--- ctest WITH change:"; ctest --test-dir _build -j8 --timeout 900 --output-junit /tmp/junit_$id.xml > /dev/null 2>&1
+echo "--- ctest WITH change:"; ctest --test-dir _build -j8 --timeout 3600 --output-junit /tmp/junit_$id.xml > /dev/null 2>&1
 python3 - $id <<'PY'
 import json,sys
 import xml.etree.ElementTree as ET
